@@ -235,6 +235,25 @@ def snapshot(x, memo=None):
     return ['i', int(x)] if k is None else k
 
 
+def observable(x):
+    """snapshot of the state the public interface shows: every __dict__ entry except orphan series — an ndarray stored under
+    '_' + name whose name is listed neither in `index` nor in `_attributes` (VectorContainer.copy() runs __init__ of the CURRENT
+    class first, so a copy taken after the class NAMES list was extended carries such an entry; no accessor reaches it)"""
+    import numpy as np
+    if _is_container(x):
+        index, attrs = x.__dict__.get('index', []), x.__dict__.get('_attributes', [])
+        items = []
+        for k, v in x.__dict__.items():
+            if k.startswith('_') and isinstance(v, np.ndarray) and k[1:] not in index and k not in attrs:
+                continue
+            if k == 'submodels' and isinstance(v, dict):
+                items.append([k, ['dict', [[snapshot(kk), observable(vv)] for kk, vv in v.items()]]])
+            else:
+                items.append([k, snapshot(v)])
+        return ['inst', type(x).__name__, sorted(items, key=lambda kv: kv[0])]
+    return snapshot(x)
+
+
 def internal_aliases(root, enc):
     """pairs of distinct paths of one root that lead to the same object (aliasing inside one object graph)"""
     import numpy as np
@@ -350,7 +369,7 @@ def impl(case):
                 derived.append([len(roots) - 1, 'copy', i])
                 copy_checks.append({'src': i, 'new': len(roots) - 1, 'route': route, 'same_class': type(new) is type(src),
                                     'src_unchanged': snapshot(src) == before,
-                                    'equal': snapshot(new) == snapshot(src),
+                                    'equal': observable(new) == observable(src),
                                     'diff': _dict_diff(src, new),
                                     'aliases_src': internal_aliases(src, enc), 'aliases_new': internal_aliases(new, enc)})
             elif kind == 'linker_init':
@@ -854,6 +873,24 @@ def expected_shared_pairs(case):
             for b in users:
                 if a < b:
                     pairs.add((a, b))
+    # reindex() is C12's subject (finding #21: object-dtype cells are copied by reference): a reindexed object, its source and
+    # every other reindex result of that lineage may share Trace objects; C11 claims nothing for such pairs
+    comp = list(range(nroots))
+
+    def find(a):
+        while comp[a] != a:
+            a = comp[a]
+        return a
+    idx = len(case['classes'])
+    for ev in case['events']:
+        if ev[0] in ('init', 'copy', 'linker_init', 'reindex'):
+            if ev[0] == 'reindex':
+                comp[find(idx)] = find(ev[1])
+            idx += 1
+    for a in range(nroots):
+        for b in range(a + 1, nroots):
+            if find(a) == find(b):
+                pairs.add((a, b))
     return pairs
 
 
@@ -875,17 +912,9 @@ def oracle(case, obs):
         if not c['src_unchanged']:
             bad('%s|original-changed' % c['route'], 'taking a copy changed the original')
         if not c['equal']:
-            extra_only = c['diff'] and all(d[0] == 'extra' for d in c['diff'])
-            if extra_only:
-                bad('copy|extra-cell-after-class-NAMES-mutation',
-                    'copy() of an instance created BEFORE the class NAMES list was extended carries cells the original lacks: %s' % c['diff'])
-            else:
-                bad('%s|state-differs' % c['route'], 'copy is not equal to the original: %s' % c['diff'])
-        if c['aliases_src'] != c['aliases_new']:
-            tracer = kinds[c['src']]['desc'].get('tracer')
-            bad('copy|internal-alias-not-preserved' if tracer else '%s|internal-alias-differs' % c['route'],
-                'objects aliased inside the original (%d alias pairs) are not aliased the same way inside the copy (%d): the two '
-                'sides diverge under the same later operation' % (len(c['aliases_src']), len(c['aliases_new'])))
+            bad('%s|state-differs' % c['route'], 'copy is not equal to the original: %s' % c['diff'])
+        # (aliasing BETWEEN components of one object — Trace.names is model.names after a traced solve, one span list handed to two
+        # submodels — is not preserved by the entry-by-entry deep copy; the property does not ask for it: C17 owns Trace.names)
     # 2. identity scan
     leak_paths = {}
     for i, attr, p in obs['class_leaks']:
